@@ -114,7 +114,10 @@ class H(semh.Base):
             s2, d2, self.W2 = self.tyspec(ex, t2, w2, "w2"); sub.update(d2)
             init1 = {"int": "1", "uint": "1", "float": "1.0", "bool": "true"}.get(t1)
             pre = f"const {s1} v = {init1} ;" if c1 else f"{s1} v ;"
-            if vform.startswith("arith_vw:"):
+            if vform == "call":
+                pre += f" def h ( ) -~ > {s1} {{ }}"
+                value = "h ( )"
+            elif vform.startswith("arith_vw:"):
                 t3 = vform.split(":")[1]
                 pre += f" {t3} w ;"
                 value = "v + w" if not vform.endswith(":r") else "w + v"
@@ -178,6 +181,10 @@ class H(semh.Base):
             self.check_typing(ex, R, b["left"], what); self.check_typing(ex, R, b["right"], what)
         elif e.v == "UnaryExpr":
             self.check_typing(ex, R, e[0]["operand"], what)
+        elif e.v == "SubroutineCall":
+            st = R.sym_type(e[0]["name"])
+            if st is not None and st.v == "SubroutineDef":
+                ex.prove(type_eq(ty, st[0]["return_type"]), f"`{self.label()}`: call expression typed {ty!r}, the subroutine returns {st[0]['return_type']!r}")
         elif e.v == "MeasureExpression":
             o = e[0]["operand"]
             ot = o["ty"]
@@ -224,7 +231,7 @@ class H(semh.Base):
                 t3 = vform.split(":")[1]
                 if t3 != t1 and (t1 in SPECIAL or t3 in SPECIAL) and not typediag:
                     raise Violation(f"`{self.label()}`: arithmetic on {t1} and {t3} operands (no common type) is accepted without diagnostic (expression typed {vt!r})")
-            if vform in ("var", "arith_vv", "mul_vv", "neg", "paren"):
+            if vform in ("var", "arith_vv", "mul_vv", "neg", "paren", "call"):
                 if downward(t1, t2) and not typediag:
                     raise Violation(f"`{self.label()}`: a {t1} value is converted down to {t2} without diagnostic (value typed {vt!r}, target {tx!r})")
                 if t1 == t2 and self.W1 is not None and self.W2 is not None and not c1 and not typediag:
@@ -243,7 +250,7 @@ def build_tasks(quick):
     tasks = []
     types = list(TY)
     wopts = lambda t: ((0, 1) if quick else (0, 1, 2)) if t in WIDTHED else (0,)
-    vforms = ("var", "arith_vv", "cast", "neg") if quick else ("var", "arith_vv", "arith_vl", "mul_vv", "cast", "neg", "paren")
+    vforms = ("var", "arith_vv", "cast", "neg", "call") if quick else ("var", "arith_vv", "arith_vl", "mul_vv", "cast", "neg", "paren", "call")
     for form in ("decl", "assign"):
         for t1 in types:
             for w1 in wopts(t1):
@@ -261,6 +268,8 @@ def build_tasks(quick):
                                     if vf.startswith("arith_vw:") and t1 in ("bit", "duration", "stretch"):
                                         continue
                                     if quick and vf != "var" and (w1 != w2):
+                                        continue
+                                    if vf == "call" and (c1 or t1 in ("duration", "stretch")):
                                         continue
                                     tasks.append((form, (t1, w1, c1), (t2, w2, c2), vf))
     for form in ("lit", "litassign"):
